@@ -508,17 +508,98 @@ def _freeze(v):
 
 def check(ctx):
     ctx.explanation = (
-        "GTF importer: the three relation tuples per line are resolved by reaching definitions and compared with "
-        "{(transcript,f,1),(gene,f,2),(gene,transcript,1)}; the pair query and the extent queries are normalised to conjunctive queries and "
-        "compared with the specification up to alias renaming; every field of the record written for a derived transcript/gene is traced by "
-        "value provenance to the column of the query row it comes from and matched with the reader's field names; the writes' path conditions "
-        "are evaluated three-valued over the four valuations of the disable_infer_* flags; derived collisions use 'merge'; format routing is a "
-        "decision table obtained by abstract evaluation of create_db and FeatureDB.update over force_gff x fmt x id_spec given/absent. R6 "
-        "demands a guard (or sweep) excluding parent == child. Does not decide numeric extents (aggregates are computed by SQLite over "
-        "runtime rows).")
+        "The GTF importer's create() is evaluated by the abstract evaluator against a model database (relational evaluator for the SQL used, "
+        "including the DISTINCT pair query with its sub-select and the MIN/MAX extent queries; in-memory intermediate file): a family with two "
+        "genes on two chromosomes, interleaved lines, an exon whose end lies beyond that of the last-starting exon, a transcript without exons, "
+        "under all four combinations of the disable_infer_* flags and shuffled line orders; a file with explicit gene/transcript lines; custom "
+        "transcript/gene keys and subfeature type; an id shared by a gene and an exon-less transcript. Relations, derived features (type, "
+        "seqid, extent, strand, bin, id attribute) and the fate of explicit lines are compared with a reference model of the statement. Format "
+        "routing is a decision table obtained by abstract evaluation of create_db and FeatureDB.update over force_gff x fmt x id_spec "
+        "given/absent. gffutils and sqlite3 are not imported or run. Does not decide 'for every GTF file'.")
     sch = schema(ctx)
-    r1_r6(ctx, sch)
-    res = r2(ctx, sch)
-    r3(ctx, res)
-    r4(ctx)
+    r_scenario(ctx)
     r5_format_routing(ctx)
+
+
+# ------------------------------------------------------------------------------------------------ scenario rules
+def r_scenario(ctx):
+    """The GTF importer evaluated on the model database (create(): tables, lines, relations, derived features through the
+    intermediate file, finalisation) and compared with a reference model of the statement."""
+    import random
+    from . import scen
+    from ..binsmodel import spec_bins
+    fu = require_func(ctx, "create._GTFDBCreator._update_relations")
+    fp = require_func(ctx, "create._GTFDBCreator._populate_from_lines")
+    keys = list(ctx.folder.const("constants", "_keys"))
+    rnd = random.Random(7)
+    runs = []
+    fam = scen.gtf_lines("family")
+    for ig in (False, True):
+        for it_ in (False, True):
+            runs.append(("family, disable_infer_genes=%s, disable_infer_transcripts=%s" % (ig, it_), "family", None, dict(disable_infer_genes=ig, disable_infer_transcripts=it_), {}))
+    runs.append(("explicit gene and transcript lines", "explicit", None, {}, {}))
+    runs.append(("an id shared by a gene and an exon-less transcript", "shared-id", None, {}, {}))
+    for k in range(2 if ctx.tier == "quick" else 12):
+        o = list(range(len(fam)))
+        rnd.shuffle(o)
+        runs.append(("family, line order %s" % "".join(str(i + 1) for i in o), "family", o, {}, {}))
+    runs.append(("custom keys (tx / gn) and subfeature CDS", "custom", None, dict(transcript_key="tx", gene_key="gn", subfeature="CDS",
+                                                                                    id_spec={"gene": "gn", "transcript": "tx"}), dict(tkey="tx", gkey="gn", subfeature="CDS")))
+    n = 0
+    for label, which, order, attrs, okw in runs:
+        if which == "custom":
+            lines = [scen.feature("C1", "CDS", 10, 20, {"gn": ["G"], "tx": ["T"]}), scen.feature("C2", "exon", 1, 50, {"gn": ["G"], "tx": ["T"]}),
+                     scen.feature("C3", "CDS", 30, 40, {"gn": ["G"], "tx": ["T"]}), scen.feature("C4", "CDS", 100, 120, {"gene_id": ["zz"], "transcript_id": ["yy"]})]
+        else:
+            lines = scen.gtf_lines(which)
+            if order is not None:
+                lines = [lines[i] for i in order]
+        im, t = scen.run_create(ctx, "_GTFDBCreator", lines, **attrs)
+        n += 1
+        if not scen.returned(ctx, t, "GTF create() (%s)" % label, func=fu, rule="R2"):
+            continue
+        ids = [f.attrs["id"] for f in lines]
+        derived, rel = scen.expected_gtf(lines, ids, infer_genes=not attrs.get("disable_infer_genes", False), infer_transcripts=not attrs.get("disable_infer_transcripts", False), **okw)
+        got_rel = im.table("relations")
+        okr = set(got_rel) == rel and len(got_rel) == len(set(got_rel))
+        ctx.ob("R1", okr, "relations: every line is a level-1 child of its transcript and a level-2 child of its gene, each transcript a level-1 child of its gene -- "
+               "once each, nothing else, and no feature related to itself (%s)" % label, func=fp,
+               sig="%s: relations equal the model" % label if okr else "%s: missing %s, unexpected %s" % (label, sorted(rel - set(got_rel))[:3], sorted(set(got_rel) - rel)[:3]))
+        selfrel = [r for r in got_rel if r[0] == r[1]]
+        ctx.ob("R6", not selfrel, "no feature is its own parent or child (%s)" % label, func=fp, sig="%s: no self relation" % label if not selfrel else "%s: %s" % (label, selfrel[:2]), nontrivial=False)
+        rows = [scen.decoded_row(r, keys) for r in im.table("features", keys)]
+        by = {}
+        for r in rows:
+            by.setdefault(r["id"], []).append(r)
+        bad = None
+        for did, (ft, seqid, start, end, strand) in sorted(derived.items()):
+            got = by.get(did, [])
+            if len(got) != 1:
+                bad = "derived %s %s is stored %d times" % (ft, did, len(got))
+                break
+            g = got[0]
+            want = dict(featuretype=ft, seqid=seqid, start=start, end=end, strand=strand, bin=spec_bins(start, end, "gff", True))
+            diff = sorted(k for k, v in want.items() if g.get(k) != v)
+            if diff:
+                bad = "derived %s %s: %s = %s, the model has %s" % (ft, did, diff, [g.get(k) for k in diff], [want[k] for k in diff])
+                break
+            tk, gk = okw.get("tkey", "transcript_id"), okw.get("gkey", "gene_id")
+            a = g.get("attributes")
+            if not isinstance(a, dict) or (ft == "transcript" and a.get(tk) != [did]) or (ft == "gene" and a.get(gk) != [did]):
+                bad = "derived %s %s carries attributes %r" % (ft, did, a)
+                break
+        extra = sorted(set(map(str, by)) - set(map(str, ids)) - set(derived))
+        if bad is None and extra:
+            bad = "unexpected feature(s) %s" % extra[:3]
+        ctx.ob("R2", bad is None, "one derived transcript per transcript id owning a subfeature and one derived gene per gene id, spanning exactly min(start)..max(end) of the "
+               "subfeatures on their seqid and strand, binned by their own extent, carrying their id; none for ids without subfeatures, none when disabled (%s)" % label, func=fu,
+               sig="%s: derived features equal the model" % label if bad is None else "%s: %s" % (label, bad))
+        if which == "explicit":
+            g1 = by.get("g1", [])
+            t1 = by.get("t1", [])
+            ok = len(g1) == 1 and len(t1) == 1 and g1[0]["start"] == 90 and g1[0]["end"] == 1200 and t1[0]["start"] == 95 and g1[0]["source"] == "src" \
+                and isinstance(g1[0]["attributes"], dict) and g1[0]["attributes"].get("Name") == ["G1"] and g1[0]["attributes"].get("gene_id") == ["g1"] \
+                and isinstance(t1[0]["attributes"], dict) and t1[0]["attributes"].get("tag") == ["basic"]
+            ctx.ob("R4", ok, "gene / transcript lines present in the file stay the single feature under their id, with the file's own coordinates and attributes (a derived twin is merged into them)", func=fu,
+                   sig="explicit gene and transcript kept" if ok else "explicit lines: gene %s transcript %s" % ([(r["start"], r["end"], r["source"], r["attributes"]) for r in g1], [(r["start"], r["end"], r["attributes"]) for r in t1]))
+    ctx.floor("R2", n, 8, "GTF import scenarios")
